@@ -9,8 +9,10 @@ import (
 // ---- independent reference encoder (SCALE as specified: fixed-width little endian integers,
 // compact integers, length-prefixed sequences, one index byte for enumerations)
 
-func zzCompact14(n uint32) []byte { // n < 2^30
+func zzCompact14(n uint32) []byte {
 	switch {
+	case n >= 1<<30: // big-integer mode: 4 bytes follow
+		return []byte{0x03, byte(n), byte(n >> 8), byte(n >> 16), byte(n >> 24)}
 	case n < 1<<6:
 		return []byte{byte(n << 2)}
 	case n < 1<<14:
@@ -46,7 +48,6 @@ func zzSameBytes14(a, b []byte) bool {
 func ZZ_C14_header() {
 	ph, sr, er := zzHash14("parent"), zzHash14("state"), zzHash14("extr")
 	num := vrt.U32("number")
-	vrt.Assume(num < 1<<30)
 	d := NewDigest()
 	ref := append(append(append(append([]byte{}, ph[:]...), zzCompact14(num)...), sr[:]...), er[:]...)
 	n := vrt.Range("items", 0, vrt.Param("maxitems", 2))
